@@ -99,7 +99,11 @@ type Built struct {
 	byHash   map[chainhash.Hash]int
 }
 
-// Received is the fixed receive time of every record.
+// Received is the base receive time of the records; transaction t is stamped
+// Received + (n-t) s, i.e. a transaction is always stamped EARLIER than the
+// transactions it spends (children first seen before their parents, parents
+// returned to the pool by a reorg): anything that orders by receive time
+// instead of dependency shows.
 var Received = time.Unix(1500000000, 0)
 
 func extOutPoint(id int) wire.OutPoint {
@@ -169,7 +173,7 @@ func Build(u *Universe) (*Built, error) {
 			amts = append(amts, amt)
 			tx.AddTxOut(wire.NewTxOut(amt, PkScript(ti, oi)))
 		}
-		rec, err := wtxmgr.NewTxRecordFromMsgTx(tx, Received)
+		rec, err := wtxmgr.NewTxRecordFromMsgTx(tx, Received.Add(time.Duration(len(u.Txs)-ti)*time.Second))
 		if err != nil {
 			return nil, err
 		}
